@@ -296,12 +296,14 @@ RPAll == [sa : RPSites, sb : RPSites, h : RPHandlers, md : RPMids, hf : BOOLEAN,
 RPValid(c) == /\ RPIdx(c.sa) <= RPIdx(c.sb)                                       \* rounds alternate: the pair is unordered
               /\ (c.h = "inner" => "sortcmp" \notin {c.sa, c.sb})                 \* a comparator that returns: sorting is not modelled
 RPLong(c) == c.n >= RPMany
-\* thorough: the full product for n in {1, 4}; for RPMany every pair of sites x placement, and every single site with
-\* every md / hf; RPMore rounds for every single site (handler in the caller).  quick: for n = 4 every pair of sites (handler in the caller), every single site at every placement, with
-\* every md and with hf; for RPMany every single site with the handler in the caller, one callback site at every placement,
-\* an accessor site below a second built-in, a mixed pair, every md and hf once; n = 1 for every single site.
+\* thorough: the full product for n in {1, 4}; for RPMany every pair of sites (handler in the caller) and every single site
+\* at every placement with every md and with hf; RPMore rounds for every single site (handler in the caller).
+\* quick: for n = 4 every pair of sites (handler in the caller), every single site at every placement, with every md and
+\* with hf; for RPMany every single site with the handler in the caller, one callback site at every placement, an accessor
+\* site below a second built-in, a mixed pair, every md and hf once; n = 1 for every single site.
 RPThoroughSel(c) == \/ ~RPLong(c)
-                    \/ (c.n = RPMany /\ ((c.md = "none" /\ ~c.hf) \/ c.sa = c.sb))
+                    \/ (c.n = RPMany /\ c.md = "none" /\ ~c.hf /\ c.h = "caller")
+                    \/ (c.n = RPMany /\ c.sa = c.sb /\ (c.md = "none" \/ ~c.hf))
                     \/ (c.n = RPMore /\ c.sa = c.sb /\ c.h = "caller" /\ c.md = "none" /\ ~c.hf)
 RPQuickSel(c) ==
   LET plainly == c.md = "none" /\ ~c.hf  single == c.sa = c.sb IN
